@@ -15,6 +15,7 @@ def run(rep, kf, tier, seed):
     engine_a.discharge(rep, kf, reg, "C01", tier, seed)
     # O1 lexical well-formedness of docstrings for any content
     ta.safe_docstring_obligations(rep, "C01")
+    ta.handwritten_docstring_obligation(rep, "C01")
     # O5 reference closure: roots reach every inner build; cascade (bounded)
     cd.discharge(rep, kf, "C01", tier, seed)
     import contracts.removal as crm
